@@ -36,11 +36,11 @@ struct Run{
   std::vector<double> grid;
   StepCfg plan_sc; bool have_plan_sc; bool need_apply;   // the stepper settings are (re)applied only when the plan changes them: they must travel with the object
   int any_override; bool hmin_raised; double cur_hmin;   // -1: derived from the switches
-  double acc_tol; double t_ini,sum_dt; long steps_total; StepCfg sc; bool trace_ops; std::string prop;
+  double acc_tol; double t_ini,sum_dt; long steps_total; StepCfg sc; bool trace_ops; bool big_clock; std::string prop;
   uint64_t shape; bool nontrivial; double sim_time; long applies_total;
   unsigned nx,nsun,nrhos,nsc;
 
-  Run():plan(0),live(0),have_plan_sc(false),need_apply(true),any_override(-1),hmin_raised(false),cur_hmin(0),acc_tol(0),t_ini(0),sum_dt(0),steps_total(0),trace_ops(false),shape(1469598103934665603ULL),nontrivial(false),sim_time(0),applies_total(0),nx(0),nsun(0),nrhos(0),nsc(0){}
+  Run():plan(0),live(0),have_plan_sc(false),need_apply(true),any_override(-1),hmin_raised(false),cur_hmin(0),acc_tol(0),t_ini(0),sum_dt(0),steps_total(0),trace_ops(false),big_clock(false),shape(1469598103934665603ULL),nontrivial(false),sim_time(0),applies_total(0),nx(0),nsun(0),nrhos(0),nsc(0){}
   long opiseed() const{ return 1000+c.opi; }
   void shp(const std::string& s){ shape=fnv1a(s,shape); }
   void shp(long v){ shape=fnv1a(&v,sizeof v,shape); }
@@ -55,7 +55,8 @@ struct Run{
     nx=(unsigned)std::max(1LL,std::min(9LL,cfg["nx"].as_int(2))); nsun=(unsigned)std::max(2LL,std::min(6LL,cfg["nsun"].as_int(3)));
     nrhos=(unsigned)std::max(1LL,std::min(3LL,cfg["nrhos"].as_int(1))); nsc=(unsigned)std::max(0LL,std::min(3LL,cfg["nscalars"].as_int(0)));
     t_ini=cfg["t0"].as_num(0.0); sum_dt=0; steps_total=0; acc_tol=0;
-    prob.build((uint64_t)cfg["seed"].as_int(1),nx,nsun,nrhos,nsc);
+    big_clock=cfg["const_terms"].as_bool(false);
+    prob.build((uint64_t)cfg["seed"].as_int(1),nx,nsun,nrhos,nsc,big_clock);
     c.prob=&prob;
     (void)first;
   }
@@ -271,11 +272,15 @@ struct Run{
       return;
     }
     // reference: closed form over the segment with the switches of this segment
+    // at clocks of 1e13 and more t_before+dt is not t_before plus dt any more; the terms of such plans are time independent, so the closed form
+    // over an interval of length dt is taken from 0 to dt (an adaptive run there is not judged: GSL trims its last step against the rounded clock)
+    double rt0=big_clock?0.0:t_before, rt1=big_clock?dt:t_before+dt;
     for(unsigned ix=0;ix<nx;ix++){
-      for(unsigned ir=0;ir<nrhos;ir++) ref[ix*nrhos+ir]=prob.advance(ix,ir,ref[ix*nrhos+ir],t_before,t_before+dt,c.sw.coh,c.sw.noncoh,c.sw.other);
-      for(unsigned is=0;is<nsc;is++) refs[ix*nsc+is]=prob.advance_scalar(ix,is,refs[ix*nsc+is],t_before,t_before+dt,c.sw.gs,c.sw.os);
+      for(unsigned ir=0;ir<nrhos;ir++) ref[ix*nrhos+ir]=prob.advance(ix,ir,ref[ix*nrhos+ir],rt0,rt1,c.sw.coh,c.sw.noncoh,c.sw.other);
+      for(unsigned is=0;is<nsc;is++) refs[ix*nsc+is]=prob.advance_scalar(ix,is,refs[ix*nsc+is],rt0,rt1,c.sw.gs,c.sw.os);
     }
-    if(sc.is_sim()||dt==0||toggled){
+    if(big_clock) c.ctr->add("probe_evolve_at_clock_beyond_1e13");
+    if(sc.is_sim()||dt==0||toggled||(big_clock&&sc.adaptive)){
       // integration accuracy of the seeded tableaux is not judged; continue from the library's own state
       for(unsigned ix=0;ix<nx;ix++){ for(unsigned ir=0;ir<nrhos;ir++) ref[ix*nrhos+ir]=from_components(nsun,live->rho_ptr(ix,ir)); for(unsigned is=0;is<nsc;is++) refs[ix*nsc+is]=live->scal_ptr(ix)[is]; }
       acc_tol=0;
@@ -854,6 +859,26 @@ struct SolverEngine: Engine{
         else if(k==11){ Json o=Json::object(); o["op"]="any_numerics"; o["on"]=r.chance(0.4); ops.push(o); evolve(dtgen()); }
         else if(k==9){ Json o=Json::object(); o["op"]="evolve_fail"; o["at"]=(int)r.below(4); o["adaptive"]=r.chance(0.6); o["vs"]=(long long)r.below(100000); ops.push(o); }
         else{ Json o=Json::object(); o["op"]="bad_call"; static const char* bk[]={"xrange_size","xrange_unsorted","xrange_scale","xrange_log0","get_i","ini_dim7","ini_dim1","expect_dim","expect_dim","expect_dim"}; o["kind"]=bk[r.below(10)]; o["above"]=r.chance(0.5); o["grow"]=(int)r.below(4); o["variant"]=(int)r.below(6); ops.push(o); }
+      }
+    }
+    // a C04 plan at a clock of 1e13..3e15 (one ulp of the clock is 2e-3..0.5, comparable to or larger than a step): time-independent terms, real
+    // steppers in fixed mode with steps small enough for a tight closed-form tolerance. Drawn from its own stream so that the other plans stay as they were.
+    if(prop=="C04"){
+      Rng rb(stream_seed(rs,STREAM_PLAN)^0xB16C10C5ULL);
+      if(rb.chance(0.07)){
+        p["cfg"]["t0"]=(rb.chance(0.5)?1.0:-1.0)*std::pow(10.0,rb.uniform(13.0,15.5)); p["cfg"]["const_terms"]=true;
+        ops=Json::array();
+        static const char* names[]={"rk4","rkf45","rkck","rk8pd"}; int k=(int)rb.below(4);
+        int nev=rb.range(1,2);
+        for(int i=0;i<nev;i++){
+          double dt=rb.uniform(0.05,0.8);
+          {
+            Json st=Json::object(); st["op"]="stepper"; st["name"]=names[k]; st["adaptive"]=false; st["abs"]=0.1; st["rel"]=0.1; st["h"]=1e-3;
+            st["nsteps"]=(int)(std::ceil(dt*L/(k==3?0.05:0.01))+10); st["tableau"]=0; st["bufmode"]=0; st["dydt_in"]=true; st["reject"]=0; st["fail"]=0; st["all"]=rb.chance(0.5);
+            ops.push(st);
+          }
+          evolve(dt);
+        }
       }
     }
     p["ops"]=ops;
